@@ -59,9 +59,10 @@ def run_step(laze, tmp, root, cli, sc, stop=0, extra_env=None):
         rc, so, se = "timeout", "", ""
     argvs = [ln.split("\x1f") if ln else [] for ln in open(nlog).read().split("\n")[:-1]] if os.path.exists(nlog) else []
     tasks = [tuple(ln.split(" ", 1)) for ln in open(tlog).read().splitlines()] if os.path.exists(tlog) else []
+    ev = e2e.take_events(tmp)
     nf = ninja_path(root, cli)
     return dict(rc=rc, stdout=so, stderr=se, ninja_argv=argvs, tasks=tasks, argv=args[1:],
-                cache_hit=("laze: reading cache took" in so),
+                cache_hit=e2e.was_cache_hit(ev, so),
                 ninja=open(nf, "rb").read() if os.path.exists(nf) else None,
                 cache_exists=os.path.exists(cache_path(root, cli)))
 
@@ -196,6 +197,23 @@ def stmts_of(text):
     if cur: out.append("\n".join(cur))
     return set(out)
 
+def effective_targets(argvs, ninja_bytes):
+    """what each ninja invocation builds: its explicit targets, or — without any — every output of the file
+    (ninja's default when a file declares no `default`)"""
+    outs = set()
+    for ln in (ninja_bytes or b"").decode("utf-8", "replace").split("\n"):
+        if ln.startswith("build ") and ":" in ln:
+            outs.update(x for x in ln[6:].split(":", 1)[0].replace("$", " ").split() if x)
+    res = []
+    for a in argvs:
+        t = []; i = 0
+        while i < len(a):
+            if a[i] in ("-f", "-j", "-k"): i += 2
+            elif a[i] == "-v": i += 1
+            else: t.append(a[i]); i += 1
+        res.append(sorted(t) if t else ["<all>"] + sorted(outs))
+    return res
+
 def property_check(h, steps, fresh):
     """the last run of the history against the same run in an empty build directory"""
     if fresh is None: return []
@@ -203,6 +221,10 @@ def property_check(h, steps, fresh):
     if last.get("again_hit") is False: v.append("the identical command line on the unchanged tree was not served from the cache")
     if last["rc"] != fresh["rc"]: v.append("exit status %s after the history, %s with an empty build directory" % (last["rc"], fresh["rc"]))
     if last["ninja_argv"] != fresh["ninja_argv"]: v.append("ninja invocations %s after the history, %s fresh" % (last["ninja_argv"], fresh["ninja_argv"]))
+    elif effective_targets(last["ninja_argv"], last["ninja"]) != effective_targets(fresh["ninja_argv"], fresh["ninja"]):
+        a = effective_targets(last["ninja_argv"], last["ninja"]); b = effective_targets(fresh["ninja_argv"], fresh["ninja"])
+        v.append("ninja is asked to build %d output(s) after the history (%s), %d in an empty build directory (%s)" %
+                 (sum(len(x) for x in a), str(a)[:160], sum(len(x) for x in b), str(b)[:160]))
     if last["tasks"] != fresh["tasks"]: v.append("executed tasks %s after the history, %s fresh" % (last["tasks"], fresh["tasks"]))
     if fresh["rc"] == 0 and last["rc"] == 0:
         a = (last["ninja"] or b"").decode("utf-8", "replace"); b = (fresh["ninja"] or b"").decode("utf-8", "replace")
